@@ -601,11 +601,106 @@ def r_state_closure(ctx, *entries):
                        '%s draws from / reseeds the global numpy generator (%s)' % (f.name, rng[0][1]),
                        inputs='any history of calls')
     r_namesake(ctx, clo)
+    r_view(ctx, clo)
     # a crash on a path that never binds a local breaks whatever the property promises about these entry points
     from .exc import r_unbound
     r_unbound(ctx, entries)
     r_none(ctx, clo)
+    r_zero(ctx, clo)
+    r_dtype(ctx, clo)
     return clo
+
+
+def _positions(t):
+    """is t the array of positions selected by a predicate: where(c)[0], nonzero(c)[0], c.nonzero()[0], flatnonzero(c)?"""
+    if t[0] == 'sub' and t[2] == ('c', 0) and (is_call(t[1], 'numpy.where', 'numpy.nonzero') and len(t[1][2]) == 1 or
+                                              (t[1][0] == 'call' and t[1][1][0] == 'attr' and t[1][1][2] == 'nonzero')):
+        return True
+    return is_call(t, 'numpy.flatnonzero', 'numpy.argwhere')
+
+
+def r_zero(ctx, fqs):
+    """position 0 (the letter A, the all-A vertex, the first row) is a legitimate member of an index array"""
+    run = ctx.run
+    run.rule('R-ZERO', "the positions selected by a predicate (where(c)[0], nonzero, flatnonzero) are never reduced by any() / all(): "
+                       "position 0 is falsy, so any() answers 'nothing selected' when only position 0 is; emptiness is len() / .size")
+    n = 0
+    for fq in sorted(fqs):
+        f = ctx.p.func(fq)
+        if f is None:
+            continue
+        seen = set()
+        for nd, s in ctx.all_subterms(f):
+            arg = None
+            if is_call(s, 'builtins.any', 'numpy.any', 'builtins.all', 'numpy.all') and len(s[2]) == 1:
+                arg, fn = s[2][0], s[1][1].split('.')[-1]
+            elif s[0] == 'call' and s[1][0] == 'attr' and s[1][2] in ('any', 'all') and not s[2]:
+                arg, fn = s[1][1], s[1][2]
+            if arg is None:
+                continue
+            while is_call(arg, 'builtins.list', 'builtins.tuple', 'numpy.array', 'numpy.asarray', 'numpy.unique', 'numpy.sort') and arg[2]:
+                arg = arg[2][0]
+            while arg[0] == 'call' and arg[1][0] == 'attr' and arg[1][2] in ('tolist', 'copy', 'astype'):
+                arg = arg[1][1]
+            if _positions(arg) and (nd.id, arg) not in seen:
+                seen.add((nd.id, arg))
+                n += 1
+                run.refute('R-ZERO', f, 'positions-reduced-by-%s' % fn, nd.lineno,
+                           '%s() is applied to the positions %s: position 0 (nucleotide A / vertex AA..A / the first row) is falsy, so a '
+                           'selection that consists of position 0 alone is judged empty' % (fn, show(arg)[:60]),
+                           inputs='a vertex whose only arc is A; a mask that selects only the all-A k-mer')
+    run.notes.append('R-ZERO: %d reductions of position arrays' % n)
+
+
+_UNSIGNED = {'uint8', 'uint16', 'uint32', 'uint64', 'uint', 'uintc', 'uintp', 'ubyte', 'ushort', 'ulonglong', 'u1', 'u2', 'u4', 'u8',
+             'B', 'H', 'I', 'L', 'Q', '<u1', '<u2', '<u4', '<u8', 'bool', 'bool_', '?'}
+
+
+def r_dtype(ctx, fqs):
+    """-1 is the library's 'no arc / not visited' value: an array that holds it is signed"""
+    run = ctx.run
+    run.rule('R-DTYPE', "an array that is negated, filled with or assigned a negative constant is not allocated with an unsigned (or "
+                        "boolean) dtype, and does not inherit its dtype from an argument through *_like(): -1 would wrap to the "
+                        "largest value and every `>= 0` liveness test would hold")
+    n = 0
+    for fq in sorted(fqs):
+        f = ctx.p.func(fq)
+        if f is None:
+            continue
+        for nd, s in ctx.all_subterms(f):
+            # -alloc(..., dtype=U)   /  full(shape, -c, dtype=U)
+            neg = None
+            if s[0] == 'un' and s[1] == '-' and s[2][0] == 'call':
+                neg = s[2]
+            elif s[0] == 'bin' and s[1] == '-' and s[2][0] == 'call' and s[3][0] == 'c' and isinstance(s[3][1], (int, float)) and s[3][1] > 0:
+                neg = s[2]
+            elif is_call(s, 'numpy.full', 'numpy.full_like') and len(s[2]) >= 2 and s[2][1][0] == 'c' and \
+                    isinstance(s[2][1][1], (int, float)) and s[2][1][1] < 0:
+                neg = s
+            if neg is None or neg[1][0] != 'g' or not neg[1][1].startswith('numpy.'):
+                continue
+            n += 1
+            dt = dict(neg[3]).get('dtype')
+            name = None
+            if dt is not None:
+                if dt[0] == 'c' and isinstance(dt[1], str):
+                    name = dt[1]
+                elif dt[0] == 'g':
+                    name = dt[1].split('.')[-1]
+                elif dt[0] == 'attr':
+                    name = dt[2]
+            if name is not None and name in _UNSIGNED:
+                run.refute('R-DTYPE', f, 'negative-in-unsigned', nd.lineno,
+                           '%s builds an array of negative values with dtype %s: the value wraps (‑1 becomes the largest unsigned '
+                           'number, or True), so the "no entry" marker can no longer be told from a vertex and indexing with it raises '
+                           'IndexError' % (show(s)[:70], name), inputs='every input that reads an unset entry')
+            elif dt is None and neg[1][1].endswith('_like') and neg[2] and \
+                    any(x[0] == 'v' and x[2] == 'P' for x in walk_term(neg[2][0])):
+                run.refute('R-DTYPE', f, 'dtype-inherited-from-argument', nd.lineno,
+                           '%s takes its dtype from the caller\'s array: for an unsigned or boolean argument (a 0/1 adjacency matrix is '
+                           'naturally uint8 or bool) -1 wraps to 255 / True, for a narrow one vertex indices overflow' % show(s)[:70],
+                           inputs='arguments of dtype uint8 / bool / int8')
+    run.notes.append('R-DTYPE: %d negative-valued allocations' % n)
 
 
 def r_none(ctx, fqs):
@@ -685,6 +780,33 @@ def r_namesake(ctx, fqs):
             for k in c.keywords:
                 if k.arg and isinstance(k.value, ast.Name):
                     bound.append((k.arg, k.value.id))
+            for k in c.keywords:
+                if k.arg is None:
+                    # **{name: value for name, value in {...}.items() if value}: falsy values are not forwarded at all
+                    v = k.value
+                    if isinstance(v, ast.DictComp) and len(v.generators) == 1 and v.generators[0].ifs:
+                        gen = v.generators[0]
+                        src = gen.iter.func.value if isinstance(gen.iter, ast.Call) and isinstance(gen.iter.func, ast.Attribute) and \
+                            gen.iter.func.attr == 'items' else None
+                        if isinstance(src, ast.Name):
+                            ds = [d for d in f.defs if d.name == src.id and d.kind == 'assign']
+                            src = ds[0].value if len(ds) == 1 else None
+                        filt_on_value = isinstance(v.value, ast.Name) and any(
+                            isinstance(t_, ast.Name) and t_.id == v.value.id for t_ in gen.ifs)
+                        if isinstance(src, ast.Dict) and filt_on_value:
+                            for kk in src.keys:
+                                if isinstance(kk, ast.Constant) and kk.value in callee.defaults:
+                                    dflt = callee.defaults[kk.value]
+                                    if isinstance(dflt, ast.Constant) and dflt.value:
+                                        n += 1
+                                        run.refute('R-NAMESAKE', f, 'dropped-falsy-argument:%s' % kk.value, nd.lineno,
+                                                   "%s forwards `%s` to %s only when it is truthy: for a false value the callee falls back "
+                                                   "to its own default %r, i.e. the opposite of what the caller asked for"
+                                                   % (f.name, kk.value, callee.name, dflt.value),
+                                                   inputs='%s=False' % kk.value)
+                            continue
+                    run.undecided('R-NAMESAKE', f, 'star-forwarding', nd.lineno,
+                                  'arguments of %s are forwarded through ** in a form that is not resolved' % callee.name)
             for p, arg in bound:
                 if arg in f.params and arg != p and arg in callee.params and p in f.params and arg not in {d.name for d in f.defs if d.kind != 'param'}:
                     n += 1
@@ -972,6 +1094,83 @@ def r_verb(ctx, floor_funcs=0):
     run.notes.append('R-VERB: %d functions, %d guarded regions, %d pass-down arguments' % (nf, nreg, npass))
     # Monitor.__call__ must not raise explicitly and only writes its own timer
     return nf, nreg, npass
+
+
+def r_view(ctx, fqs):
+    """R-VIEW: a before/after comparison made through two numpy views of the same memory compares a value with itself"""
+    run = ctx.run
+    run.rule('R-VIEW', "a variable bound to a basic-indexing view of an array (`p = A[i]`, no call, no copy) sees every later "
+                       "store into A: a comparison between two such variables taken from the same place before and after a "
+                       "store into A compares the current content with itself")
+    n = 0
+    for fq in sorted(fqs):
+        f = ctx.p.func(fq)
+        if f is None:
+            continue
+        views = {}
+        for d in f.defs:
+            if d.kind != 'assign' or d.value is None or d.path:
+                continue
+            v = d.value
+            if not isinstance(v, ast.Subscript):
+                continue
+            b = v
+            plain = True
+            while isinstance(b, ast.Subscript):
+                idx = b.slice
+                for e_ in (idx.elts if isinstance(idx, ast.Tuple) else [idx]):
+                    if not isinstance(e_, (ast.Name, ast.Constant, ast.Slice, ast.BinOp, ast.UnaryOp)):
+                        plain = False       # fancy indexing (lists, arrays, masks) copies
+                b = b.value
+            if not plain or not isinstance(b, ast.Name):
+                continue
+            # only arrays: the base is a parameter or a local that is stored into with a tuple / 2-D subscript somewhere, or an
+            # accessor-like kind
+            if ctx.kinds.kind(f.term(b, f.nodes[d.node]), f) not in ('ACC', 'ROW'):
+                continue
+            if sum(1 for d2 in f.defs if d2.name == d.name and d2.kind in ('assign', 'aug')) != 1:
+                continue
+            tv = f.term(v, f.nodes[d.node])
+            idxs = []
+            while tv[0] == 'sub':
+                idxs.append(tv[2])
+                tv = tv[1]
+            views[d.name] = (d, b.id, tuple(idxs))
+        if len(views) < 2:
+            continue
+        for nd in f.nodes:
+            for r in ctx.roots(nd):
+                for c in ast.walk(r):
+                    if not (isinstance(c, ast.Compare) and len(c.ops) >= 1):
+                        continue
+                    sides = [c.left] + list(c.comparators)
+                    for a_, b_ in zip(sides, sides[1:]):
+                        na = {x.id for x in ast.walk(a_) if isinstance(x, ast.Name)} & set(views)
+                        nb = {x.id for x in ast.walk(b_) if isinstance(x, ast.Name)} & set(views)
+                        for p in na:
+                            for q in nb:
+                                if p == q:
+                                    continue
+                                dp, bp, tp = views[p]
+                                dq, bq, tq = views[q]
+                                if bp != bq or tp != tq:
+                                    continue
+                                if ast.dump(a_).replace(repr(p), '#') != ast.dump(b_).replace(repr(q), '#'):
+                                    continue
+                                # a store into the base between the two bindings
+                                first, second = (dp, dq) if dp.node < dq.node else (dq, dp)
+                                between = [d3 for d3 in f.defs if d3.name == bp and d3.kind == 'mutate' and
+                                           d3.node in f.reachable_from(first.node) and second.node in f.reachable_from(d3.node)]
+                                n += 1
+                                if between:
+                                    run.refute('R-VIEW', f, 'before-after-through-views', nd.lineno,
+                                               '`%s` and `%s` are both views of %s (bound at lines %d and %d, no copy); the store at line %d '
+                                               'between them is visible through both, so `%s` compares the row with itself and the branch '
+                                               'it guards can never be taken'
+                                               % (p, q, '%s[%s]' % (bp, ', '.join(show(i_)[:30] for i_ in reversed(tp))), f.nodes[dp.node].lineno, f.nodes[dq.node].lineno,
+                                                  f.nodes[between[0].node].lineno, ast.unparse(c)[:60]),
+                                               inputs='every input that reaches the comparison')
+    run.notes.append('R-VIEW: %d before/after comparisons through views examined' % n)
 
 
 def _read_after_delete(f, vnames):
